@@ -1027,3 +1027,370 @@ func runR187(c *Ctx) {
 		}
 	}
 }
+
+// ---------------------------------------------------------------------------
+// R19.6
+
+func init() {
+	register(&Rule{
+		ID: "R19.6", Props: []string{"C19"}, Engine: "loop-invariant edge facts (SSA)",
+		Text: "removing a name never cuts off another registered name: in InstanceNameTrie.Remove the edge that is finally deleted is the last one captured, and on every step where the walk keeps the previously captured edge instead of capturing the current node's, the current node is known (by the branch conditions on that very edge) to hold no value (value < 0) and to have at most one child – otherwise deleting the captured edge would drop that node's value or its other children",
+		Floor: 1, MustExist: true, Run: runR196,
+	})
+}
+
+func runR196(c *Ctx) {
+	fn := c.Method(digestRel, "InstanceNameTrie", "Remove")
+	if fn == nil {
+		c.Broken("InstanceNameTrie.Remove not found")
+		return
+	}
+	name := FuncName(fn)
+	var del *ssa.Call
+	allInstrs(fn, func(ins ssa.Instruction) {
+		if cl, ok := ins.(*ssa.Call); ok {
+			if bi, ok := cl.Call.Value.(*ssa.Builtin); ok && bi.Name() == "delete" {
+				del = cl
+			}
+		}
+	})
+	if del == nil {
+		c.Broken("InstanceNameTrie.Remove: no delete of a captured edge found (the rule is written for the iterative capture-and-cut form)")
+		return
+	}
+	isHeader := func(b *ssa.BasicBlock) bool {
+		for _, p := range b.Preds {
+			if b.Dominates(p) {
+				return true
+			}
+		}
+		return false
+	}
+	// capture: a load of <node>.children ; returns the node
+	captureOf := func(v ssa.Value) (ssa.Value, bool) {
+		f, base := loadedField(v)
+		if f != nil && f.Name() == "children" {
+			return base, true
+		}
+		return nil, false
+	}
+	seen := map[*ssa.Phi]bool{}
+	nDecisions := 0
+	var walk func(v ssa.Value)
+	walk = func(v ssa.Value) {
+		phi, ok := v.(*ssa.Phi)
+		if !ok || seen[phi] {
+			return
+		}
+		seen[phi] = true
+		blk := phi.Block()
+		if isHeader(blk) {
+			for _, e := range phi.Edges {
+				walk(e)
+			}
+			return
+		}
+		// a decision point: which node would be captured here?
+		var node ssa.Value
+		for _, e := range phi.Edges {
+			if n, ok := captureOf(e); ok {
+				node = n
+			}
+		}
+		for i, e := range phi.Edges {
+			if _, ok := captureOf(e); ok {
+				continue
+			}
+			walk(e)
+			if node == nil {
+				continue
+			}
+			nDecisions++
+			p := blk.Preds[i]
+			noValue, fewChildren := false, false
+			isValue := func(x ssa.Value) bool {
+				f, base := loadedField(x)
+				return f != nil && f.Name() == "value" && sameSource(base, node)
+			}
+			isNChildren := func(x ssa.Value) bool {
+				cl, ok := x.(*ssa.Call)
+				if !ok {
+					return false
+				}
+				bi, ok := cl.Call.Value.(*ssa.Builtin)
+				if !ok || bi.Name() != "len" {
+					return false
+				}
+				f, base := loadedField(cl.Call.Args[0])
+				return f != nil && f.Name() == "children" && sameSource(base, node)
+			}
+			edgeFactsOn(p, blk, func(cond ssa.Value, val bool) bool {
+				op, x, y, ok := normCmp(cond, val)
+				if !ok {
+					return true
+				}
+				if k, ok := cmpUpperBound(op, x, y, isValue); ok && k <= -1 {
+					noValue = true
+				}
+				if k, ok := cmpUpperBound(op, x, y, isNChildren); ok && k <= 1 {
+					fewChildren = true
+				}
+				return true
+			})
+			c.Check(noValue && fewChildren, name, "keep-edge", c.Pos(phi.Pos()), "the captured edge is kept only across nodes without a value and with at most one child", func() string {
+				m := "the walk keeps the previously captured edge across a node that "
+				switch {
+				case !noValue && !fewChildren:
+					m += "may hold a value and may have several children"
+				case !noValue:
+					m += "may itself hold a value"
+				default:
+					m += "may have other children"
+				}
+				return m + ": when the removed name ends in a leaf, the cut removes that node too, so a different, still registered instance name (a prefix of the removed one, or a sibling) silently disappears from the trie"
+			}())
+		}
+	}
+	walk(del.Call.Args[0])
+	if nDecisions == 0 {
+		c.Broken("InstanceNameTrie.Remove: no capture/keep decision found on the way to delete()")
+	}
+}
+
+// ---------------------------------------------------------------------------
+// R20.5
+
+func init() {
+	register(&Rule{
+		ID: "R20.5", Props: []string{"C20", "C14"}, Engine: "difference-bound analysis (SSA, inductive over loop phis, call-site preconditions)",
+		Text: "truncated resource names cannot make the parsers panic: every index and re-slice of a []string in NewDigestFromByteStreamReadPath, NewDigestFromByteStreamWritePath, newDigestFromByteStreamPathCommon and NewInstanceNameFromComponents is proven in range from the length checks that dominate it (len(fields) < n returns, loop exit conditions, the minimum length both callers guarantee for the trailer, and the lengths that remain after trailer = trailer[k:])",
+		Floor: 10, MustExist: true, Run: runR205,
+	})
+}
+
+var r205Funcs = []string{"NewDigestFromByteStreamReadPath", "NewDigestFromByteStreamWritePath", "newDigestFromByteStreamPathCommon", "NewInstanceNameFromComponents"}
+
+func runR205(c *Ctx) {
+	bp := newBoundsProver(c, digestRel)
+	for _, fnName := range r205Funcs {
+		fn := c.Func(digestRel, fnName)
+		if fn == nil {
+			c.Broken("digest.%s not found", fnName)
+			continue
+		}
+		withAnon(fn, func(g *ssa.Function) {
+			for _, op := range bp.checkFunc(g) {
+				c.Check(op.proven, FuncName(g), op.what+"-in-range", c.Pos(op.ins.Pos()), "in range on every path", "an "+op.what+" operation on a list of path components is not proven in range ("+op.why+"): a truncated or oddly shaped resource name reaches it with too few components and the server panics instead of answering INVALID_ARGUMENT")
+			}
+		})
+	}
+}
+
+// ---------------------------------------------------------------------------
+// R20.6
+
+func init() {
+	register(&Rule{
+		ID: "R20.6", Props: []string{"C20", "C13"}, Engine: "abstract evaluation of comparisons over the rune domain (SSA)",
+		Text: "the hash alphabet is exactly lowercase hexadecimal: Function.NewDigest ranges over every character of the hash string before the digest is constructed, and evaluating the loop body's comparisons for every code point shows that the characters that do not lead to an error return are exactly 0-9 and a-f (an uppercase or otherwise non-canonical spelling of the same hash bytes would be a second, distinct key for one object)",
+		Floor: 1, MustExist: true, Run: runR206,
+	})
+}
+
+func runR206(c *Ctx) {
+	fn := c.Method(digestRel, "Function", "NewDigest")
+	if fn == nil {
+		c.Broken("digest.Function.NewDigest not found")
+		return
+	}
+	name := FuncName(fn)
+	var hash ssa.Value
+	for _, p := range fn.Params {
+		if bt, ok := p.Type().Underlying().(*types.Basic); ok && bt.Kind() == types.String {
+			hash = p
+		}
+	}
+	var next *ssa.Next
+	allInstrs(fn, func(ins ssa.Instruction) {
+		if n, ok := ins.(*ssa.Next); ok && n.IsString {
+			if r, ok := n.Iter.(*ssa.Range); ok && r.X == hash {
+				next = n
+			}
+		}
+	})
+	if next == nil {
+		c.Fail(name, "alphabet", c.Pos(fn.Pos()), "NewDigest no longer examines the hash character by character: nothing establishes that only 0-9 and a-f are accepted (hex decoders accept A-F as well, giving one object several distinct digests)")
+		return
+	}
+	loopPos := c.Pos(fn.Pos())
+	if r, ok := next.Iter.(*ssa.Range); ok && r.Pos().IsValid() {
+		loopPos = c.Pos(r.Pos())
+	}
+	var ch, okv ssa.Value
+	for _, r := range *next.Referrers() {
+		if ex, isEx := r.(*ssa.Extract); isEx {
+			switch ex.Index {
+			case 0:
+				okv = ex
+			case 2:
+				ch = ex
+			}
+		}
+	}
+	hdr := next.Block()
+	var body *ssa.BasicBlock
+	if iff, isIf := hdr.Instrs[len(hdr.Instrs)-1].(*ssa.If); isIf && iff.Cond == okv {
+		body = hdr.Succs[0]
+	}
+	if ch == nil || body == nil {
+		c.Fail(name, "alphabet", loopPos, "the loop over the hash does not look at the characters")
+		return
+	}
+	// the construction must come after the loop: newDigestUnchecked is reached only through the loop's exit
+	// (checked by R20.1's call-site discipline; here: the loop header dominates every success return)
+	for _, r := range returnsOf(fn) {
+		if isNilConst(r.Results[len(r.Results)-1]) && !hdr.Dominates(r.Block()) {
+			c.Fail(name, "alphabet", c.Pos(r.Pos()), "a digest is returned on a path that bypasses the per-character validation")
+			return
+		}
+	}
+	evalCmp := func(cond ssa.Value, r int64) (bool, bool) {
+		neg := false
+		for {
+			if u, ok := cond.(*ssa.UnOp); ok && u.Op == token.NOT {
+				cond, neg = u.X, !neg
+				continue
+			}
+			break
+		}
+		bo, ok := cond.(*ssa.BinOp)
+		if !ok {
+			return false, false
+		}
+		val := func(v ssa.Value) (int64, bool) {
+			v = stripConv(v)
+			if cv, isConv := v.(*ssa.Convert); isConv {
+				v = cv.X
+			}
+			if v == ch {
+				return r, true
+			}
+			return constInt(v)
+		}
+		x, okx := val(bo.X)
+		y, oky := val(bo.Y)
+		if !okx || !oky {
+			return false, false
+		}
+		var res bool
+		switch bo.Op {
+		case token.LSS:
+			res = x < y
+		case token.LEQ:
+			res = x <= y
+		case token.GTR:
+			res = x > y
+		case token.GEQ:
+			res = x >= y
+		case token.EQL:
+			res = x == y
+		case token.NEQ:
+			res = x != y
+		default:
+			return false, false
+		}
+		return res != neg, true
+	}
+	// domain: every ASCII code point plus representatives of the rest
+	var dom []int64
+	for r := int64(0); r < 0x100; r++ {
+		dom = append(dom, r)
+	}
+	dom = append(dom, 0x100, 0x7FF, 0x800, 0xFFFD, 0xFFFF, 0x10000, 0x10FFFF)
+	var wrong []string
+	undecided := ""
+	for _, r := range dom {
+		b := body
+		accepted, decided := false, false
+		for steps := 0; steps < 64 && !decided; steps++ {
+			if b == hdr {
+				accepted, decided = true, true
+				break
+			}
+			last := b.Instrs[len(b.Instrs)-1]
+			switch t := last.(type) {
+			case *ssa.If:
+				v, ok := evalCmp(t.Cond, r)
+				if !ok {
+					undecided = c.Pos(t.Cond.Pos())
+					decided = true
+					break
+				}
+				if v {
+					b = b.Succs[0]
+				} else {
+					b = b.Succs[1]
+				}
+			case *ssa.Jump:
+				b = b.Succs[0]
+			case *ssa.Return:
+				accepted, decided = isNilConst(t.Results[len(t.Results)-1]), true
+			default:
+				undecided, decided = c.Pos(last.Pos()), true
+			}
+		}
+		if undecided != "" {
+			break
+		}
+		want := (r >= '0' && r <= '9') || (r >= 'a' && r <= 'f')
+		if accepted != want {
+			if accepted {
+				wrong = append(wrong, "accepts "+runeDesc(r))
+			} else {
+				wrong = append(wrong, "rejects "+runeDesc(r))
+			}
+		}
+	}
+	if undecided != "" {
+		c.Fail(name, "alphabet", undecided, "the per-character validation of the hash contains a test the checker cannot evaluate over the rune domain; the accepted alphabet is not established")
+		return
+	}
+	if len(wrong) > 0 {
+		if len(wrong) > 6 {
+			wrong = append(wrong[:6], "…")
+		}
+		c.Fail(name, "alphabet", loopPos, "the per-character validation "+joinComma(wrong)+": the accepted hash alphabet is not exactly 0-9a-f")
+		return
+	}
+	c.Pass(name, "alphabet", loopPos, "accepted characters are exactly 0-9a-f (263 code points evaluated)")
+}
+
+func runeDesc(r int64) string {
+	if r >= 0x21 && r < 0x7f {
+		return "'" + string(rune(r)) + "'"
+	}
+	return "U+" + hex4(r)
+}
+
+func hex4(r int64) string {
+	const d = "0123456789ABCDEF"
+	s := ""
+	for i := 20; i >= 0; i -= 4 {
+		s += string(d[(r>>uint(i))&15])
+	}
+	for len(s) > 4 && s[0] == '0' {
+		s = s[1:]
+	}
+	return s
+}
+
+func joinComma(s []string) string {
+	out := ""
+	for i, x := range s {
+		if i > 0 {
+			out += ", "
+		}
+		out += x
+	}
+	return out
+}
